@@ -6,7 +6,7 @@
    run's result, cost, error or allocator counts, nor any operator's result and cost for any
    argument list.
 
-   What is proved here (level "other": lemmas about two of the four anchored mechanisms):
+   What is proved here (level "other": theorems about three of the four anchored mechanisms, on the model):
 
    C05_path / C05_path_zero / C05_path_small
        the inline small-integer path lookup (traverse_path_fast, src/traverse_path.rs:79, used
@@ -22,16 +22,43 @@
        (1 :: canonical bytes of i): finite, complete, by computation (Proofs/TableProofs.v,
        shared with C22).
 
-   NOT theorems (documentation): the arithmetic operators of Model/OpsArith.v are defined once,
-   on unbounded integers (Z) - that single definition is what both the u64/i64 fast paths with
-   their checked_add/checked_sub fall-backs and the generic bignum paths of more_ops.rs
-   :665,710,819,980,1265 must compute; the model has no second, "fast" definition to compare it
-   with, so there is nothing to prove inside Coq. Likewise the model has no pre-eval /
-   counters instrumentation. Both are decided on the implementation: the harness is built three
-   times (default, no-fastpath, counters+pre-eval) and every observation is compared across the
-   binaries and with the model (lib/props/c05.py). *)
-From Clvm Require Import Model.Path Model.IntEnc Model.OpUtils Model.Sha256 Gen.Tables
-  Proofs.PathFast Proofs.TableProofs Proofs.C05Table.
+   C05_gr_fast / C05_sha256_fast / C05_multiply_fast / C05_add_fast / C05_subtract_fast
+   C05_gr_nofast / C05_sha256_nofast / C05_multiply_nofast / C05_add_nofast / C05_subtract_nofast
+       the five operator bodies of src/more_ops.rs that contain a
+       `#[cfg(not(feature = "no-fastpath"))]` region (:665 op_sha256, :710 op_add, :819
+       op_subtract, :980 op_multiply, :1265 op_gr) are transcribed twice in Model/OpsFast.v - as
+       the default build compiles them (fast path present) and as the no-fastpath build does -
+       over argument lists in which every operand carries its allocator REPRESENTATION
+       (RSmall v: inline atom, v < 2^26; RBuf b: heap atom holding ANY bytes, small canonical
+       integers included; RPair), with the machine integers of the fast paths written out (u64
+       total with checked_add, i64 total with checked_sub, `impl Limbs for u64/i64`,
+       new_u64/new_i64, len_for_value, the index into PRECOMPUTED_HASHES, num_bytes = 2 if n > 0
+       else 1, a CostExceeded inside the closure is returned, a non-inline operand or an
+       overflow restarts the generic loop from the saved input with the base cost). Each of the
+       ten transcriptions equals the one tree-store operator of Model/OpsArith.v / OpsStr.v on
+       the denoted argument list (RSmall v -> the canonical bytes of v): the same cost and atom
+       or the same error, for EVERY flag set, budget, argument list and terminator. Hence the
+       two builds agree with each other on every operator call, whatever mixture of inline and
+       heap atoms the arguments are.
+   C05_new_u64 / C05_new_i64
+       the result node: Allocator::new_u64 / new_i64 (fast paths) and Allocator::new_number
+       (generic path) leave the allocator model of Model/Alloc.v in the same state and return
+       the same node (same counters, same inline/heap choice, same errors).
+
+   NOT theorems: (1) that Model/OpsFast.v is what rustc compiles from more_ops.rs under either
+   feature set - tied by the correspondence run (family `fastops`: the real operator functions
+   of the default and the no-fastpath harness binaries, called on arguments built inline or on
+   the heap, against both transcriptions) and by the translator re-reading the table and the
+   literal of op_sha256's NIL return; (2) u64 cost arithmetic is on unbounded N (as in
+   Model/OpsArith.v: it cannot wrap below 2^32-byte atoms and a cost below 2^63);
+   (3) whole runs: that the evaluator reaches the operators with the same arguments in both
+   builds follows from (1) and the path theorems only informally; (4) the counters / pre-eval
+   features: the model has no instrumentation. (3) and (4) are decided on the implementation:
+   the harness is built three times (default, no-fastpath, counters+pre-eval) and every
+   observation is compared across the binaries and with the model (lib/props/c05.py). *)
+From Clvm Require Import Model.Path Model.IntEnc Model.OpUtils Model.Sha256 Model.OpsFast Gen.Tables
+  Proofs.PathFast Proofs.TableProofs Proofs.C05Table Proofs.OpsFastProofs.
+From Clvm Require Model.Alloc.
 Open Scope N_scope.
 
 Theorem C05_path : forall v env, 0 < v < 2 ^ 32 ->
@@ -51,6 +78,84 @@ Proof. exact precomputed_nth. Qed.
 
 Theorem C05_table_len : length src_precomputed_hashes = 37%nat.
 Proof. exact table_length. Qed.
+
+(* ---- operator fast paths (Model/OpsFast.v) ---- *)
+Theorem C05_gr_fast : forall f i m, rinput_ok i = true ->
+  op_gr_fast f i m = op_gr f (denote_input i) m.
+Proof. exact op_gr_fast_eq. Qed.
+Theorem C05_gr_nofast : forall f i m, rinput_ok i = true ->
+  op_gr_nofast f i m = op_gr f (denote_input i) m.
+Proof. exact op_gr_nofast_eq. Qed.
+
+Theorem C05_sha256_fast : forall f i m, rinput_ok i = true ->
+  op_sha256_fast sha256 f i m = op_sha256 sha256 f (denote_input i) m.
+Proof. exact op_sha256_fast_eq. Qed.
+Theorem C05_sha256_nofast : forall f i m,
+  op_sha256_nofast sha256 f i m = op_sha256 sha256 f (denote_input i) m.
+Proof. exact op_sha256_nofast_eq. Qed.
+
+Theorem C05_multiply_fast : forall f i m, rinput_ok i = true ->
+  op_multiply_fast f i m = op_multiply f (denote_input i) m.
+Proof. exact op_multiply_fast_eq. Qed.
+Theorem C05_multiply_nofast : forall f i m, rinput_ok i = true ->
+  op_multiply_nofast f i m = op_multiply f (denote_input i) m.
+Proof. exact op_multiply_nofast_eq. Qed.
+
+Theorem C05_add_fast : forall f i m, rinput_ok i = true ->
+  op_add_fast f i m = op_add f (denote_input i) m.
+Proof. exact op_add_fast_eq. Qed.
+Theorem C05_add_nofast : forall f i m, rinput_ok i = true ->
+  op_add_nofast f i m = op_add f (denote_input i) m.
+Proof. exact op_add_nofast_eq. Qed.
+
+Theorem C05_subtract_fast : forall f i m, rinput_ok i = true ->
+  op_subtract_fast f i m = op_subtract f (denote_input i) m.
+Proof. exact op_subtract_fast_eq. Qed.
+Theorem C05_subtract_nofast : forall f i m, rinput_ok i = true ->
+  op_subtract_nofast f i m = op_subtract f (denote_input i) m.
+Proof. exact op_subtract_nofast_eq. Qed.
+
+Theorem C05_new_u64 : forall a v, Alloc.u8_len a <= Alloc.U32_MAX -> v < 2 ^ 64 ->
+  Alloc.new_u64 a v = Alloc.new_number a (Z.of_N v).
+Proof. exact new_u64_is_new_number. Qed.
+Theorem C05_new_i64 : forall a z, Alloc.u8_len a <= Alloc.U32_MAX -> (- 2 ^ 63 <= z < 2 ^ 63)%Z ->
+  Alloc.new_i64 a z = Alloc.new_number a z.
+Proof. exact new_i64_is_new_number. Qed.
+
+(* non-vacuity: inputs that satisfy the invariant and take each branch. A heap atom holding a
+   small canonical integer (RBuf [5]) takes the fast path of `>` and of sha256 (small_number
+   reads the bytes) but forces the fall-back of + and - (NodeVisitor::Buffer); the totals
+   2^32 - 1 + ... and 0 - v - ... leave the u32 / non-negative range inside the fast loops; the
+   budget check inside the closure returns CostExceeded; (sha256 1 36) is the last table entry,
+   (sha256 1 37) the first generic one. *)
+Example C05_ops_witness :
+  let nf := flags_of_N 0 in let nc := flags_of_N 0x2000 in
+  let big := 67108863 in
+  let many := repeat (RSmall big) 70 in
+  rinput_ok ([RSmall 7; RBuf [5]], TSmall 0) = true /\
+  op_gr_fast nf ([RSmall 7; RBuf [5]], TSmall 0) 0 = Ok (502, one_s) /\
+  op_gr_fast nc ([RBuf [0; 128]; RSmall 128], TBuf [9]) 0 = Ok (1016, nil_s) /\
+  op_gr_fast nf ([RBuf [0; 5]; RSmall 4], TSmall 0) 0 = Ok (504, one_s) /\
+  op_gr_fast nf ([RSmall 4; RPair nil_s nil_s], TSmall 0) 0 = Err (InvalidOpArg 0) /\
+  op_add_fast nf ([RSmall big; RSmall big], TSmall 0) 1000 = Ok (803, Atom [7; 255; 255; 254]) /\
+  op_add_fast nc (many, TSmall 0) 100000 = op_add nc (denote_input (many, TSmall 0)) 100000 /\
+  res_map snd (op_add_fast nc (many, TSmall 0) 100000) = Ok (Atom (bytes_of_int (70 * 67108863))) /\
+  op_add_fast nf ([RSmall 1; RBuf [255]], TSmall 0) 1000 = Ok (745, Atom []) /\
+  op_add_fast nf ([RSmall 1; RSmall 2; RBuf [1; 2; 3; 4; 5; 6; 7; 8; 9]], TSmall 0) 1000 = Err CostExceeded /\
+  op_add_fast nf ([RSmall 1; RSmall 2], TSmall 0) 700 = Err CostExceeded /\
+  op_subtract_fast nf ([RSmall 1; RSmall big; RSmall big], TSmall 0) 2000 = Ok (1126, Atom [248; 0; 0; 3]) /\
+  op_subtract_fast nc ([RSmall 0; RSmall 128; RSmall 1], TBuf []) 3000 = Ok (1631, Atom [255; 127]) /\
+  op_subtract_fast nf ([RSmall 1; RPair nil_s nil_s], TSmall 0) 400 = Err CostExceeded /\
+  op_multiply_fast nf ([RSmall 256; RBuf [0; 0; 2]; RSmall 3], TSmall 0) 10000 = Ok (1930, Atom [6; 0]) /\
+  op_multiply_nofast nf ([RSmall 256; RBuf [0; 0; 2]; RSmall 3], TSmall 0) 10000 = Ok (1930, Atom [6; 0]) /\
+  op_sha256_fast sha256 nf ([RBuf [1]; RSmall 36], TSmall 0) 1000 =
+    op_sha256 sha256 nf (Cons (Atom [1]) (Cons (Atom [36]) nil_s)) 1000 /\
+  res_map fst (op_sha256_fast sha256 nf ([RBuf [1]; RSmall 36], TSmall 0) 1000) = Ok 679 /\
+  res_map fst (op_sha256_fast sha256 nf ([RSmall 1; RSmall 0], TSmall 0) 1000) = Ok 677 /\
+  res_map fst (op_sha256_fast sha256 nf ([RSmall 1; RSmall 37], TSmall 0) 1000) = Ok 679 /\
+  op_sha256_fast sha256 nf ([RSmall 1; RSmall 36], TSmall 0) 358 = Err CostExceeded /\
+  op_sha256_fast sha256 nf ([], TSmall 0) 0 = op_sha256 sha256 nf nil_s 0.
+Proof. vm_compute. repeat split. Qed.
 
 (* the boundary cases the cost rule is about: 0x80 (7 bits), 0x8000 (15), 0x800000 (23) carry
    the zero byte, their neighbours do not; a path into an atom fails in both *)
@@ -72,3 +177,16 @@ Print Assumptions C05_path_small.
 Print Assumptions C05_table.
 Print Assumptions C05_table_len.
 Print Assumptions C05_witness.
+Print Assumptions C05_gr_fast.
+Print Assumptions C05_gr_nofast.
+Print Assumptions C05_sha256_fast.
+Print Assumptions C05_sha256_nofast.
+Print Assumptions C05_multiply_fast.
+Print Assumptions C05_multiply_nofast.
+Print Assumptions C05_add_fast.
+Print Assumptions C05_add_nofast.
+Print Assumptions C05_subtract_fast.
+Print Assumptions C05_subtract_nofast.
+Print Assumptions C05_new_u64.
+Print Assumptions C05_new_i64.
+Print Assumptions C05_ops_witness.
